@@ -168,11 +168,18 @@ def run(rep: vk.Report):
                     C._compile_cached.cache_clear()
                     with np.errstate(all="ignore"):
                         o["grad"] = None
-                        if not deep or kind in ("lin", "var"):
+                        if not deep:
                             step = "compile(gradient)"
                             gfn = C.compile_expression(gt, V)
                             step = "call compiled gradient"
                             o["grad"] = common.fval(gfn(xarr))
+                        elif kind in ("lin", "var", "vec"):
+                            # beyond n = 900 the property speaks about the SYMBOLIC gradient only (a closure nest of that depth cannot
+                            # be called within Python's default recursion limit): its value is read off the tree by the harness's own
+                            # explicit-stack walk
+                            step = "value of the symbolic gradient (harness walk)"
+                            gfn = None
+                            o["grad"] = common.fval(common.iter_eval(gt, pt))
                         if not deep:
                             step = "compile(value)"
                             vfn = C.compile_expression(ee, V)
@@ -184,8 +191,17 @@ def run(rep: vk.Report):
                     obs[sh] = o
         except RecursionError as ex:
             recursion += 1
+            # the recorded findings are identified by the call site, not by one particular n: the gradient closure of a left-deep
+            # quotient chain (derivative ~2 levels per factor) and of a left-deep product chain at the edge of the supported depth
+            fclass = None
+            failing_shape = sh if "sh" in dir() else assoc          # the shape being processed when the error escaped
+            if failing_shape == "left" and step in ("compile(gradient)", "call compiled gradient"):
+                if op == "/" and n >= 399:
+                    fclass = "gradient closure of a left-deep quotient chain"
+                elif op == "*" and n >= 881:
+                    fclass = "gradient closure of a left-deep product chain at the edge of the supported depth"
             rep.violation({"kind": "recursion", "obligation": "no RecursionError within the supported depth", "step": step,
-                           "op": op, "n": n, "base": kind, "association": assoc,
+                           "op": op, "n": n, "base": kind, "association": failing_shape, "finding_class": fclass,
                            "witness": {"base": kind, "op": op, "n": n, "association": assoc, "step": step}}, concrete=True)
             continue
         except Exception as ex:
@@ -249,7 +265,7 @@ def run(rep: vk.Report):
         structs.add(f"({a_id}%nat, {ser.BOPS[op]}, {tts}, [{ser.opt_nat(o['degree'])}], {ser.lst(ser.s(v) for v in o['vars'])})",
                     {"base": kind, "op": op, "n": n, "association": assoc, "degree": o["degree"]},
                     kinds={kind, op, assoc, f"n{n}"})
-        if not deep or kind in ("lin", "var"):
+        if not deep or kind in ("lin", "var", "vec"):
             vals = [o[k] for k in ("compiled", "evaluate") if o.get(k) is not None]
             if vals and not deep:
                 nums.append(f"({a_id}%nat, {ser.BOPS[op]}, {tts}, None, {common.pts_term(pt)}, {common.pts_term(ppts0)}, {ser.lst(ser.q(v) for v in vals)})")
